@@ -31,7 +31,7 @@ def tmv_sum(o, modes):
     return sum([to_real(d[m]) for m in modes if m in d] or [z3.RealVal(0)])
 
 
-@unit('C01', 'sum_total_emissions', [f'{E}.emission:sum_total_emissions'], replay='contracts.C01:replay')
+@unit('C01', 'sum_total_emissions', [f'{E}.emission:sum_total_emissions'], replay='contracts.C01:replay', max_paths=400)
 def sum_total(h):
     """Each species' total = trajectory sum + LTO modes + APU + GSE, absent parts counting 0.  Species i
     is given presence pattern (i + shift) mod 16 over the four maps; the 16 shifts give every
@@ -73,7 +73,7 @@ def sum_total(h):
             want = want + z3.If(apu_on, apu[s], 0)
         if s in gse:
             want = want + z3.If(gse_on, gse[s], 0)
-        conj.append(to_real(got[s]) == want)
+        conj.append(to_real(got[s]) == want if s in got else z3.BoolVal(False))
     h.ensure('total-equals-sum-of-trajectory-lto-apu-gse', z3.And(*conj))
 
 
